@@ -1,4 +1,4 @@
-From C11 Require Import Gen Model Heap HeapA.
+From C11 Require Import Gen Model Heap HeapA Iface Aligned.
 Require Extraction.
 Require Import ExtrOcamlBasic.
 Extraction "model.ml"
@@ -6,4 +6,6 @@ Extraction "model.ml"
   mkscfg stack_init stack_alloc stack_dealloc stack_deallocall stack_realloc
   mkpcfg pool_init pool_alloc pool_dealloc pool_deallocall pool_realloc pool_walk
   mkhcfg heap_init_state hp_alloc hp_dealloc hp_deallocall hp_realloc heap_walk heap_start heap_end NODE_COOKIE w64
-  ha_init_state ha_alloc ha_dealloc ha_deallocall ha_realloc.
+  ha_init_state ha_alloc ha_dealloc ha_deallocall ha_realloc
+  i_xalloc i_alloc0 i_xalloc0 i_xrealloc i_realloc0 i_spanalloc i_spanalloc0 i_spandealloc i_spanrealloc i_spanrealloc0 i_new i_delete
+  mkgcfg aligned_init aligned_alloc aligned_dealloc aligned_realloc aligned_deallocall.
